@@ -143,10 +143,28 @@ def run(ck: Check):
         "runs continue after detections (no reset); after EVERY update the implementation's window is recomputed from the raw stream; non-trivial = the window shrank at least once"
     )
     cases, impl = [], []
-    for _ in range(120 if not thorough else 1200):
-        cfg = gen_cfg(rng)
-        n = rng.choice([30, 60, 120, 200])
-        xs = gen_adwin_stream(rng, n)
+    import glob, json, os
+    from lib import VERIF
+
+    corpus = [json.load(open(f)) for f in sorted(glob.glob(os.path.join(VERIF, "corpus", "C05", "*.json")))]
+    ntotal = 120 if not thorough else 1200
+    for it in range(len(corpus) + ntotal):
+        if it < len(corpus):
+            cfg, xs = corpus[it]["config"], corpus[it]["stream"]
+            n = len(xs)
+        else:
+            cfg = gen_cfg(rng)
+            n = rng.choice([30, 60, 120, 200])
+            xs = gen_adwin_stream(rng, n)
+            if cfg["m"] == 1 and rng.random() < 0.5:
+                # binary-counter shaped windows: staircase stream checked once at an odd length
+                cfg["clock"] = rng.choice([23, 39, 47, 55, 87, 95])
+                n = cfg["clock"] + rng.choice([0, 3])
+                hi = 1 << (cfg["clock"].bit_length() - 1)
+                xs = [100.0] * hi + [50.0] * ((cfg["clock"] - hi) // 2 + 1) + [0.0] * n
+                xs = xs[:n]
+                cfg["delta"] = 0.9
+                cfg["min_window_size"] = 1
         trace, ok = monitor(ck, cfg, xs)
         nshrink = sum(1 for t in trace if t[0])
         ck.case(dict(config=cfg, n=n, head=xs[:6], shrinks=nshrink), nontrivial=nshrink > 0, key=repr((cfg, xs)))
@@ -156,12 +174,9 @@ def run(ck: Check):
             cases.append((DET, cfg, xs, None))
             impl.append(trace)
     models = run_models("C05", cases, shard=12)
-    for (det, cfg, ops, _), im, mo in zip(cases, impl, models):
-        ck.corr_cases += 1
-        d = compare_traces(im, mo, rtol=1e-7, atol=1e-9)
-        if d is not None:
-            ck.mismatch("Model/ADWIN.v vs adwin.py (width, total, variance, rows, drift after every update)", dict(config=cfg, stream=ops[: d[0] + 1], step=d[0], diff=d[1]))
+    from detectors import corr_compare
 
+    corr_compare(ck, "C05", cases, impl, models, rtol=1e-7, atol=1e-9)
 
 def main(tier, seed):
     ck = Check("C05", tier, seed)
